@@ -98,6 +98,15 @@ CHECKS = {
             'statement (Bondi radii written into the check); atoms, pre-existing bonds, whole residues and connected residue graphs are '
             'checked on the returned molecules.',
             'Geometries are collinear and at most 4 atoms; the non-bond conjunct is applied where a reference block is consulted.', '§4 C10'),
+    'C15': ('B', 'bounded exhaustive product of molecule shapes x residue graphs x selections x node orders x domains x parameter menus on the real ApplyRubberBand, pairwise conjunction oracle with brute-force residue-graph distances',
+            'model_checking',
+            'Molecules of 3-4 (thorough 5) residues with every listed side-chain mask, residue graph linear / with a gap / cross-linked, line '
+            'and L geometry, selections {BB},{SC1},{BB,SC1} (so residues without any selected atom occur), three node orders (plus permutations), '
+            'four domain criteria (incl. overlapping regions), and the full product of lower x upper x decay x minimum force x separation '
+            '(192 parameter sets); rotations and NaN coordinates on a reduced menu. For every pair of selected atoms the five criteria are '
+            'evaluated independently (BFS residue distances, closed-form constant); the bond set, lengths (5 decimals) and constants must match '
+            'exactly, one bond per pair, other bonds untouched; NaN gives a warning and no network.',
+            'At most 5 residues / 10 beads; spacings avoid thresholds.', '§4 C15'),
     'C07': ('A+D', 'explicit-state BFS over deferred-writer histories with a dict file-system model; exhaustive crash-point/torn-write enumeration of every finalisation; audit-hook monitor over all library writers; full product of a CLI run alphabet through the script\'s own entry() bound to real sub-processes',
             'model_checking',
             'Four layers. (1) every enabled operation (open w/a/r+/wb incl. re-opens, files appearing from outside, write, close) in every '
